@@ -218,6 +218,20 @@ def r10_2(run):
     for name, v in lw.attrs.items():
         if isinstance(v, ast.Call) and dotted(v.func) == '_wrapture' and v.args:
             wrapped[name] = dotted(v.args[0])
+    # the same installed by a loop after the class: for name in <tuple of names>: setattr(_ListWrapper, name, _wrapture(getattr(list, name)))
+    for st in lw.module.tree.body:
+        if isinstance(st, ast.For) and isinstance(st.target, ast.Name) and len(st.body) == 1 and isinstance(st.body[0], ast.Expr):
+            c = st.body[0].value
+            names = const(st.iter)
+            if isinstance(st.iter, ast.Name) and st.iter.id in lw.module.assigns:
+                names = const(lw.module.assigns[st.iter.id])
+            if isinstance(c, ast.Call) and dotted(c.func) == 'setattr' and len(c.args) == 3 and dotted(c.args[0]) == '_ListWrapper' and dotted(c.args[1]) == st.target.id \
+                    and isinstance(c.args[2], ast.Call) and dotted(c.args[2].func) == '_wrapture' and len(c.args[2].args) == 1 and isinstance(names, (list, tuple)):
+                g_ = c.args[2].args[0]
+                if isinstance(g_, ast.Call) and dotted(g_.func) == 'getattr' and len(g_.args) == 2 and dotted(g_.args[0]) == 'list' and dotted(g_.args[1]) == st.target.id:
+                    for nm in names:
+                        if isinstance(nm, str):
+                            wrapped[nm] = 'list.' + nm
     for m in TRACKED:
         ok = wrapped.get(m) == 'list.' + m
         run.ob('R10.2', lw.file, lw.attrs.get(m, lw.node), 'list.%s is wrapped so that it marks the option unsaved' % m, ok, slot='wrapped:%s' % m,
@@ -420,7 +434,7 @@ def r10_4(run):
     run.ob('R10.4', ns, ns.node, 'needs_save looks at the pending set', ok, slot='needs_save', message='needs_save returns %s' % [src(r.value) for r in rets])
     # args only ever appended to
     for n in walk_unit(sv):
-        if isinstance(n, ast.Call) and (dotted(n.func) or '').startswith(AN + '.') and callee_attr(n) not in ('append',):
+        if isinstance(n, ast.Call) and (dotted(n.func) or '').startswith(AN + '.') and callee_attr(n) not in ('append', 'extend'):        # (extend adds at the end too)
             run.ob('R10.4', sv, n, 'argument list is append-only', False, slot='args-mutation:%s' % callee_attr(n), message='save mutates args with %s' % callee_attr(n))
     a_defs = [v for st, v in [(s, s.value) for s in walk_unit(sv) if isinstance(s, ast.Assign) and dotted(s.targets[0]) == AN]]
     run.ob('R10.4', sv, sv.node, 'argument list starts empty', len(a_defs) == 1 and isinstance(a_defs[0], ast.List) and not a_defs[0].elts, slot='args-init', message='args initialised %d times' % len(a_defs))
